@@ -53,7 +53,7 @@ type specInst struct {
 }
 
 // presRel: cur[r] == old[r] for r <= alloc; with except != "" element-wise: cur[r][j] == old[r][j] unless except(r!, j!)
-type presRel struct{ key, cur, old, alloc, reach, except string }
+type presRel struct{ key, cur, old, alloc, reach, except, etype string }
 
 func newCtx(prog *Program, cs *ContractSet, pkg *types.Package, fmode string) *Ctx {
 	return &Ctx{prog: prog, cs: cs, pkg: pkg, fmode: fmode,
